@@ -348,9 +348,19 @@ def norm_actual(text):
     return root, path
 
 
+def strip_conversion(node):
+    """`T(name)` with T a vector type mark -> name (type conversions in association elements; their type-correctness
+    is decided by vsim's port-map rule, the structure check only compares which object is connected)"""
+    if isinstance(node, P.Apply) and isinstance(node.prefix, P.Name) and node.prefix.ident in ("unsigned", "signed", "std_logic_vector") \
+            and len(node.args) == 1 and isinstance(node.args[0], (P.Name, P.Apply)):
+        return node.args[0]
+    return node
+
+
 def actual_of(node):
     """AST of a port-map actual -> (root name without buffer_ prefix, path text)"""
     path = ""
+    node = strip_conversion(node)
     while isinstance(node, P.Apply):
         a = node.args[0]
         if isinstance(a, P.RangeArg):
@@ -397,7 +407,7 @@ def structure_check(vhdl, expected_pm):
             problems.append(("instances", f"{len(insts)} instances emitted, {len(expected_pm)} in the source"))
         else:
             # instances may be emitted in any order: match as multisets
-            gotl = sorted((s.entity, tuple(sorted((f.ident, actual_of(ac)) for f, ac, _ in s.ports))) for s in insts)
+            gotl = sorted((s.entity, tuple(sorted((strip_conversion(f).ident, actual_of(ac)) for f, ac, _ in s.ports))) for s in insts)
             expl = sorted((ent, tuple(sorted((f, norm_actual(t)) for f, t in pm.items()))) for ent, pm in expected_pm)
             if gotl != expl:
                 problems.append(("port-map", f"emitted associations {gotl} != source {expl}"))
